@@ -45,7 +45,7 @@ func genC12(r *Rand, tier string, i int) *h.Scenario {
 	p.PWrap = 0.45
 	p.PDelay = 0
 	p.PTerminal = 0.15
-	p.PQueueAfter = 0
+	p.PQueueAfter = 0.1 // wave 15: a successor joins the columns when it takes its predecessor's place
 	p.PClientAdd = 0.5
 	p.PRm, p.PPop = 0.3, 0.3
 	p.PSmallQueue = 0.3
